@@ -262,6 +262,94 @@ func (g *vgen) fresh(v *VAA) {
 	}
 }
 
+// decode HISTORIES (C05): "decoding the encoding of any VAA yields an equal VAA" whatever was decoded before and wherever the bytes
+// sit.  dseq decodes `in` (the caller's buffer, handed to Unmarshal as it is) and records what the buffer held at the previous
+// decode; `want` = the in-domain VAA whose hand-written encoding `in` is (nil for broken messages).
+func (g *vgen) dseq(prev, in []byte, want *VAA) {
+	v, res := vsafeUnmarshal(in)
+	line := fmt.Sprintf("dseq %s prev=%s in=%s res=%s", g.id("dseq"), vhex(prev), vhex(in), res)
+	if res == "ok" {
+		re, mres := vsafeMarshal(v)
+		line += fmt.Sprintf(" v=%s re=%s", vcanon(v), vhex(re))
+		if mres != "ok" {
+			line += " reerr=" + mres
+		}
+	}
+	if want != nil {
+		line += " want=" + vcanon(want)
+	}
+	fmt.Fprintln(g.w, line)
+}
+
+// a reader that reuses ONE read buffer for a run of messages of equal length (same signature count, same payload length): random
+// VAAs, a VAA that differs from its predecessor in a single field, the same message again, and now and then a message that does
+// not decode (wrong version byte, count byte one too high) in between
+func (g *vgen) bufSeq(nsigs, plen int) {
+	buf := make([]byte, 6+66*nsigs+53+plen)
+	var prev []byte
+	var last *VAA
+	k := 4 + g.r.Intn(3)
+	for i := 0; i < k; i++ {
+		var v *VAA
+		switch x := g.r.Intn(6); {
+		case last != nil && x == 0:
+			v = vclone(last)
+			v.Sequence++
+		case last != nil && x == 1:
+			v = vclone(last)
+			v.Payload[g.r.Intn(len(v.Payload))] ^= 1 << uint(g.r.Intn(8))
+		case last != nil && x == 2 && i > 1:
+			v = vclone(last) // the same message once more
+		default:
+			v = g.randVAA(nsigs, plen)
+		}
+		enc := vwire(v)
+		copy(buf, enc)
+		g.dseq(prev, buf, v)
+		prev, last = enc, v
+		if g.r.Intn(3) == 0 {
+			if g.r.Intn(2) == 0 {
+				buf[0] = 2
+			} else {
+				buf[5]++
+			}
+			g.dseq(prev, buf, nil)
+			prev = append([]byte{}, buf...)
+		}
+	}
+}
+
+// two callers decode the same bytes (each from its own copy); the first edits what IT got - payload bytes in place, a signature
+// byte, a guardian index, the payload wiped - and the second caller's value must still be what it was; a third decode of the same
+// bytes afterwards must still give the VAA they encode
+func (g *vgen) alias(v *VAA) {
+	out := vwire(v)
+	v1, r1 := vsafeUnmarshal(append([]byte{}, out...))
+	v2, r2 := vsafeUnmarshal(append([]byte{}, out...))
+	if r1 != "ok" || r2 != "ok" {
+		return
+	}
+	c2 := vcanon(v2)
+	how := []string{"payload-byte", "payload-wiped", "signature-byte", "guardian-index"}[g.r.Intn(4)]
+	if len(v1.Signatures) == 0 && (how == "signature-byte" || how == "guardian-index") {
+		how = "payload-byte"
+	}
+	switch how {
+	case "payload-byte":
+		v1.Payload[g.r.Intn(len(v1.Payload))] ^= 1 << uint(g.r.Intn(8))
+	case "payload-wiped":
+		for i := range v1.Payload {
+			v1.Payload[i] = ^v1.Payload[i]
+		}
+	case "signature-byte":
+		v1.Signatures[g.r.Intn(len(v1.Signatures))].Signature[g.r.Intn(65)] ^= 1 << uint(g.r.Intn(8))
+	default:
+		v1.Signatures[g.r.Intn(len(v1.Signatures))].Index ^= 1
+	}
+	fmt.Fprintf(g.w, "eq %s decoded-values-aliased-%s %s %s\n", g.id("als"), how, c2, vcanon(v2))
+	g.dseq(out, append([]byte{}, out...), v)
+}
+
 func (g *vgen) body(v *VAA) {
 	b := v.SerializeBody()
 	kk := crypto.Keccak256(crypto.Keccak256(b))
@@ -1112,6 +1200,12 @@ func TestVerifVaa(t *testing.T) {
 				g.dec(m)
 			}
 			g.dec(out[:len(out)-1-g.r.Intn(50)])
+		}
+		// decode histories: reused read buffers, and results edited by one of two callers
+		for _, sp := range [][2]int{{0, 1}, {1, 40}, {2, 100}, {3, 7}, {13, 1000}, {19, 1001}, {g.r.Intn(5), 1 + g.r.Intn(300)}} {
+			g.bufSeq(sp[0], sp[1])
+			g.alias(g.randVAA(sp[0], sp[1]))
+			g.alias(g.randVAA(1+sp[0]%4, 1+g.r.Intn(60)))
 		}
 		// out-of-domain encodes: empty payload, timestamps beyond 32 bits
 		v := g.randVAA(g.r.Intn(3), 0)
